@@ -1,5 +1,6 @@
 """C14 - the command line agrees with the library and honours its option spellings."""
 import json
+import re
 
 from hypothesis import strategies as st
 
@@ -7,7 +8,7 @@ from .. import cli, common, gen
 from ..core import Outcome, guard, hyp_drive
 
 import graphtage
-from graphtage.printer import Printer
+from graphtage.printer import HTMLPrinter, Printer
 
 ID = 'C14'
 TITLE = 'The command line agrees with the library and honours its option spellings'
@@ -16,15 +17,15 @@ TECHNIQUE = ('differential (command line vs library) and metamorphic (equivalent
              'relations over Hypothesis-generated documents and option vectors, all run through main() in-process')
 RULE = ("Cases: a document pair, the types of the two files (json, json5, yaml; independently chosen, so the two files "
         "often have different types), option vector (dict strategy, list-edit mode, -j/-jl/-jd) and a misleading "
-        "extension per file. Relations, each comparing stdout bytes and return value: (a) command line == library "
-        "(Filetype.build_tree + diff + formatter.print on Printer(ansi_color=False, options=...), status 1 iff some "
+        "extension per file; a quarter of the cases are XML documents (both files XML, attribute and element mutations) and a third to a half add --html. Relations, each comparing stdout bytes and return value: (a) command line == library "
+        "(Filetype.build_tree + diff + formatter.print on Printer / HTMLPrinter(ansi_color=False, options=...), status 1 iff some "
         "edit has non-zero cost); (b) -k == --dict-strategy none; -j == -jl -jd; --from-T == --from-mime mime(T) and "
         "--to-T == --to-mime mime(T) for every registered type T able to read the file; (c) the same bytes stored under "
         "a misleading extension with an explicit --from-T / --to-T / --from-mime / --to-mime give the output obtained "
         "with the honest extension, for each file position independently (also right after an invocation that let the name decide, and with one file given in both positions but read as two types). Non-trivial: the two files have different "
         "types and the explicit type differs from the one the name suggests. Distinct by case hash.")
 ASSUMPTIONS = [
-    "file types are limited to the JSON family (json, json5, yaml) for mixed-type pairs: XML and plist mixed with other types are covered by C09/C13 findings",
+    "file types are limited to the JSON family (json, json5, yaml) for mixed-type pairs, plus XML against XML: XML and plist mixed with other types are covered by C09/C13 findings",
     "colour is off (--no-color) so that byte comparison is meaningful",
 ]
 MANIFEST_TEXT = ("Command-line behaviour is compared with the library on the same files and options, equivalent option "
@@ -49,23 +50,42 @@ def cases(draw):
     ds, le = draw(gen.options)
     return {'a': a, 'b': b, 'ft': draw(st.sampled_from(TYPES)), 'tt': draw(st.sampled_from(TYPES)), 'ds': ds, 'le': le,
             'join': draw(st.sampled_from([None, '-j', '-jl', '-jd'])), 'mode': draw(st.sampled_from(['full', 'full', '-e'])),
-            'fmis': draw(st.sampled_from(MISLEADING)), 'tmis': draw(st.sampled_from(MISLEADING))}
+            'fmis': draw(st.sampled_from(MISLEADING)), 'tmis': draw(st.sampled_from(MISLEADING)),
+            'html': draw(st.sampled_from([False, False, True]))}
+
+
+@st.composite
+def xml_cases(draw):
+    c = draw(gen.xml_cases(5))
+    ds, le = draw(gen.options)
+    return {'a': c['a'], 'b': c['b'], 'ft': 'xml', 'tt': 'xml', 'ds': ds, 'le': le,
+            'join': draw(st.sampled_from([None, '-j', '-jl', '-jd'])), 'mode': draw(st.sampled_from(['full', 'full', '-e'])),
+            'fmis': draw(st.sampled_from(MISLEADING)), 'tmis': draw(st.sampled_from(MISLEADING)), 'html': draw(st.booleans())}
 
 
 def jobs(tier):
     n = 20 if tier == 'quick' else 320
-    return [{'n': n, 'shard': s} for s in range(16)]
+    return [{'n': n, 'shard': s} for s in range(16)] + [{'n': n // 3, 'shard': s, 'xml': True} for s in range(16)]
 
 
 def run_job(job, seed, sink):
-    hyp_drive(cases(), job['n'], seed, sink)
+    if job.get('xml'):
+        hyp_drive(xml_cases(), job['n'], seed, sink)
+    else:
+        hyp_drive(cases(), job['n'], seed, sink)
 
 
 def valid(case):
+    if case.get('ft') == 'xml' or case.get('tt') == 'xml':
+        return (case.get('ft') == case.get('tt') and case.get('ds') in common.DS and case.get('le') in common.LE
+                and gen.valid_case({'family': 'xml', 'a': case['a'], 'b': case['b']}))
     return case.get('ft') in TYPES and case.get('tt') in TYPES and case.get('ds') in common.DS and case.get('le') in common.LE
 
 
 def dump(doc, t):
+    if t == 'xml':
+        import xml.etree.ElementTree as ET
+        return ET.tostring(gen.to_et(doc))
     if t == 'yaml':
         import yaml
         return yaml.safe_dump(doc, default_flow_style=False)
@@ -84,6 +104,8 @@ def base_args(case):
         args.append(case['join'])
     if case.get('mode', 'full') != 'full':
         args.append(case['mode'])
+    if case.get('html'):
+        args.append('--html')
     return args
 
 
@@ -92,7 +114,12 @@ def library(case, pa, pb):
     jl = case.get('join') in ('-j', '-jl')
     jd = case.get('join') in ('-j', '-jd')
     out = common.Cap()
-    printer = Printer(out, ansi_color=False, quiet=True, options={'join_lists': jl, 'join_dict_items': jd})
+    if case.get('html'):
+        import os
+        printer = HTMLPrinter(out, title=f"Graphtage Diff of {os.path.basename(pa)} and {os.path.basename(pb)}", ansi_color=False,
+                              quiet=True, options={'join_lists': jl, 'join_dict_items': jd})
+    else:
+        printer = Printer(out, ansi_color=False, quiet=True, options={'join_lists': jl, 'join_dict_items': jd})
     ff, tf = FT[case['ft']], FT[case['tt']]
     with printer:
         ta, tb = ff.build_tree(pa, opts), tf.build_tree(pb, opts)
@@ -112,8 +139,16 @@ def library(case, pa, pb):
                     had = True
                 stack.extend(n.children())
     printer.write('\n')
-    printer.flush(final=True)
+    printer.close()
     return out.getvalue(), (1 if had else 0)
+
+
+_TITLE = re.compile(r'<title>.*?</title>', re.S)
+
+
+def norm(text):
+    """the --html page title names the two files; relations that rename a file compare everything but the title"""
+    return _TITLE.sub('<title/>', text)
 
 
 def check(case):
@@ -140,7 +175,7 @@ def check(case):
             return out
 
         def same(r):
-            return r.exc is None and r.rc == ref.rc and r.out == ref.out
+            return r.exc is None and r.rc == ref.rc and norm(r.out) == norm(ref.out)
 
         def describe(r):
             return f"baseline rc={ref.rc} out={ref.out[:120]!r}; got rc={r.rc} exc={r.exc_key} out={r.out[:120]!r}"
@@ -205,14 +240,14 @@ def check(case):
                 break
         # (d) the same file in both positions, the second one read as another type: command line vs library
         other = next(t for t in TYPES if t != ft)
-        if ft != 'yaml' or True:
+        if ft != 'xml':
             case2 = dict(case, tt=other)
             r = cli.run_main([pa, pa] + ba + [f'--to-{other}'])
             try:
                 lib = library(case2, pa, pa)
             except Exception:
                 lib = None          # the other parser rejects these bytes: nothing to compare
-            if lib is not None and r.exc is None and r.rc in (0, 1) and (r.out, r.rc) != lib:
+            if lib is not None and r.exc is None and r.rc in (0, 1) and (norm(r.out), r.rc) != (norm(lib[0]), lib[1]):
                 out.fail('explicit-to-type-not-used', f"the same {ft} file as FROM and TO with --to-{other}: command rc={r.rc} out={r.out[:120]!r}; "
                                                       f"library (second side read as {other}) rc={lib[1]} out={lib[0][:120]!r}")
         out.nontrivial = nontrivial
